@@ -128,7 +128,8 @@ def gen_scripts(ctx, rng, n):
         for _k in range(rng.randrange(6, 16) if not deep else rng.randrange(14, 30)):
             r = rng.random()
             if r < (0.35 if not deep else 0.2):
-                script.append(["req", rng.choice(peers)])
+                q = rng.random()
+                script.append(["req" if q < 0.8 else "reqbig" if q < 0.9 else "unconf", rng.choice(peers)])
             elif r < 0.6:
                 # housekeeping timers with many different (also decreasing) due times: deep, irregular heaps
                 script.append(["bg", float(rng.choice([900, 1000, 1004, 1005, 1008, 2000, 500 + nbg, rng.randrange(100, 5000)]))]); nbg += 1
@@ -140,10 +141,22 @@ def gen_scripts(ctx, rng, n):
                 script.append(["run", rng.choice([0.0, 0.0, 0.1, 1.0, 2.9, 3.0, 3.1])])
         # one request per peer at most while another to the same peer is outstanding is fine (invoke ids differ)
         iocb = rng.random() < 0.4
-        out.append({"peers": peers, "silent": silent, "script": script,
-                    "a": {"max_apdu": 128, "retries": rng.choice([0, 1, 1, 3])}, "iocb": iocb,
+        slow = [p_ for p_ in peers if p_ not in silent and rng.random() < 0.4]
+        out.append({"peers": peers, "silent": silent, "slow": slow, "script": script,
+                    "a": {"max_apdu": 128, "retries": rng.choice([0, 1, 1, 3]),
+                          "seg": rng.choice(["segmentedBoth", "noSegmentation", "segmentedReceive"])}, "iocb": iocb,
                     # requests issued from inside completion callbacks (IOCB only)
                     "chain": [rng.choice(peers) for _ in range(rng.randrange(0, 4))] if iocb else []})
+    # three IOCBs for one peer, the second ends at once in a local abort (too long, client cannot segment)
+    out.append({"peers": [30, 40], "silent": [], "iocb": True, "a": {"max_apdu": 128, "retries": 1, "seg": "noSegmentation"},
+                "script": [["req", 30], ["reqbig", 30], ["req", 30], ["req", 30], ["req", 40]]})
+    # an unconfirmed unicast request through the IOCB interface while a confirmed one is outstanding
+    out.append({"peers": [30, 40], "silent": [], "slow": [30], "iocb": True, "a": {"max_apdu": 128, "retries": 1},
+                "script": [["req", 30], ["unconf", 30], ["req", 30], ["run", 0.0], ["unconf", 30], ["req", 30]]})
+    # a server application that answers later, two requests of one service in flight (also from two clients' worth of ids)
+    for iocb in (False, True):
+        out.append({"peers": [30, 40], "silent": [], "slow": [30, 40], "iocb": iocb, "a": {"max_apdu": 128, "retries": 1},
+                    "script": [["req", 30], ["req", 30], ["req", 40], ["req", 30], ["run", 1.0], ["req", 30], ["req", 30]]})
     # A completes, its callback issues B, then C goes to the same peer before B is answered
     for silent in ([], [40]):
         out.append({"peers": [30, 40], "silent": silent, "iocb": True, "a": {"max_apdu": 128, "retries": 1},
@@ -205,8 +218,11 @@ def run_app_scripts(ctx, n_quick=1200, n_thorough=12000, label="app"):
     every request's reply reaches the request it answers, also with requests issued from callbacks)"""
     rng = ctx.sub_rng("c04/scripts/" + label)
     scripts = gen_scripts(ctx, rng, n_quick if ctx.quick else n_thorough)
+    # half through the IOCB interface (requests to one peer one at a time, callbacks re-entering), half through
+    # Application.request directly (several requests to one peer in flight at once)
     scripts = [dict(sc, iocb=True, chain=sc.get("chain") or [rng.choice(sc["peers"]) for _ in range(rng.randrange(0, 4))])
-               for sc in scripts]
+               if (i % 2 == 0 or sc.get("iocb")) else dict(sc, iocb=False, chain=[])
+               for i, sc in enumerate(scripts)]
     core.run_shards(ctx, "harness.c04_impl", "shard_scripts", [{"scripts": scripts[i::16]} for i in range(16)])
 
 
